@@ -162,7 +162,7 @@ inline std::optional<puback_message> decode_puback(
     if (remain_length == 0)
         return puback_message {};
     auto puback_ = basic::scope_limit_(remain_length)[
-        x3::byte_ >> prop::props_<puback_props>
+        x3::byte_ >> prop::props_<puback_props> >> x3::eoi
     ];
     return type_parse(it, it + remain_length, puback_);
 }
@@ -178,7 +178,7 @@ inline std::optional<pubrec_message> decode_pubrec(
     if (remain_length == 0)
         return pubrec_message {};
     auto pubrec_ = basic::scope_limit_(remain_length)[
-        x3::byte_ >> prop::props_<pubrec_props>
+        x3::byte_ >> prop::props_<pubrec_props> >> x3::eoi
     ];
     return type_parse(it, it + remain_length, pubrec_);
 }
@@ -194,7 +194,7 @@ inline std::optional<pubrel_message> decode_pubrel(
     if (remain_length == 0)
         return pubrel_message {};
     auto pubrel_ = basic::scope_limit_(remain_length)[
-        x3::byte_ >> prop::props_<pubrel_props>
+        x3::byte_ >> prop::props_<pubrel_props> >> x3::eoi
     ];
     return type_parse(it, it + remain_length, pubrel_);
 }
@@ -210,7 +210,7 @@ inline std::optional<pubcomp_message> decode_pubcomp(
     if (remain_length == 0)
         return pubcomp_message {};
     auto pubcomp_ = basic::scope_limit_(remain_length)[
-        x3::byte_ >> prop::props_<pubcomp_props>
+        x3::byte_ >> prop::props_<pubcomp_props> >> x3::eoi
     ];
     return type_parse(it, it + remain_length, pubcomp_);
 }
@@ -282,7 +282,7 @@ inline std::optional<disconnect_message> decode_disconnect(
     if (remain_length == 0)
         return disconnect_message {};
     auto disconnect_ = basic::scope_limit_(remain_length)[
-        x3::byte_ >> prop::props_<disconnect_props>
+        x3::byte_ >> prop::props_<disconnect_props> >> x3::eoi
     ];
     return type_parse(it, it + remain_length, disconnect_);
 }
@@ -298,7 +298,7 @@ inline std::optional<auth_message> decode_auth(
     if (remain_length == 0)
         return auth_message {};
     auto auth_ = basic::scope_limit_(remain_length)[
-        x3::byte_ >> prop::props_<auth_props>
+        x3::byte_ >> prop::props_<auth_props> >> x3::eoi
     ];
     return type_parse(it, it + remain_length, auth_);
 }
